@@ -158,13 +158,17 @@ chk('C05', 'model_checking',
     'delayed after successes; all validated by TLC. Across the phases of '
     'hybrid the chain is the one of Session.tla (HandOver: a phase starts '
     'from what the previous one returned, which is the last written input), '
-    'validated on every run by TraceSession; faulty variants of the session '
-    'model are refuted by TLC.',
+    'validated on every run by TraceSession; the applications of '
+    'strategy_ddmin.reduce (stage order, repetition of top-level passes until '
+    'they reduce nothing, granularity schedule, reductions counted, return '
+    'only after a quiet sweep) are validated by TraceDdminOuter; faulty '
+    'variants of both models are refuted by TLC.',
     STRAT_NOTE,
     'TLC model checking of all interleavings + TLC trace validation of '
     'free-running and schedule-enumerated parallel executions',
-    'Hier.tla, HierBad.tla, Ddmin.tla, DdminBad.tla, Session.tla, '
-    'TraceHier.tla, TraceDdmin.tla, TraceSession.tla',
+    'Hier.tla, HierBad.tla, Ddmin.tla, DdminBad.tla, DdminOuter.tla, '
+    'Session.tla, TraceHier.tla, TraceDdmin.tla, TraceDdminOuter.tla, '
+    'TraceSession.tla',
     'DESIGN.md section 5, C05')
 
 chk('C18', 'model_checking',
@@ -385,6 +389,11 @@ ENGINES = [
      '(hand-over, report, file at exit)'),
     ('TraceSession.tla', 'specs/TraceSession.tla',
      'TLA+ trace spec reusing Session.tla actions'),
+    ('DdminOuter.tla', 'specs/DdminOuter.tla',
+     'TLA+ spec: strategy_ddmin.reduce above one mutator (stages, repetition '
+     'of top-level passes, quiet sweep)'),
+    ('TraceDdminOuter.tla', 'specs/TraceDdminOuter.tla',
+     'TLA+ trace spec reusing DdminOuter.tla actions'),
     ('Main.tla', 'specs/Main.tla', 'TLA+ spec: phases and exit status'),
     ('GenShapes.tla', 'specs/GenShapes.tla',
      'TLA+ spec: generator of ill-formed s-expression shapes'),
